@@ -75,11 +75,7 @@ Lemma size_is_len oracle bl x rd size st :
 Proof.
   intros C (declared & body & cut & Eo & Est & Hd & He & Hn) T Hh.
   assert (Eb : s_bytes st = b_content bl) by (apply (cs_nocoll _ C); rewrite Hh; symmetry; apply (cs_hash _ C)).
-  split; [exact Eb|].
-  destruct (size_hint (b_loc bl)) as [e|] eqn:Eh.
-  - rewrite <- (He e eq_refl). symmetry. apply (cs_size _ C). exact Eh.
-  - destruct declared as [n|]; [|exfalso; apply (Hn eq_refl); reflexivity].
-    rewrite <- (Hd n eq_refl). rewrite <- Eb, Est. symmetry. apply transport_declared_len. rewrite <- Est. exact T.
+  split; [exact Eb|]. rewrite <- Eb. subst st. symmetry. apply (sized_eof_len _ _ T).
 Qed.
 
 Lemma fetch_data_is_content oracle retries bl d :
@@ -95,20 +91,20 @@ Proof.
   - discriminate.
 Qed.
 
-Lemma read_full_err st check n b e r' : hcr_read_full H (fresh st check) n = (b, e, r') -> e = ENil \/ e = EUEOF \/ e = EBadChecksum \/
+Lemma read_full_err st check n b e r' : hcr_read_full H (fresh st check) n = (b, e, r') -> e = ENil \/ e = EUEOF \/ e = EBadChecksum \/ e = EBadSize \/
   (e = EEOF /\ s_bytes st = EmptyString /\ s_term st = TEOF /\ H (s_bytes st) = check /\ 0 < n).
 Proof.
   unfold hcr_read_full, fresh. cbn [h_st h_pos h_check]. rewrite drop_0. destruct (n <=? slen (s_bytes st)) eqn:En.
   - intros [= _ <- _]. auto.
-  - apply Nat.leb_gt in En. destruct (s_term st); [|intros [= _ <- _]; auto].
+  - apply Nat.leb_gt in En. destruct (s_term st); [|intros [= _ <- _]; auto|intros [= _ <- _]; auto 6].
     destruct (hash_ok H check (s_bytes st)) eqn:Eh; [|intros [= _ <- _]; auto].
     destruct (slen (s_bytes st) =? 0) eqn:E0; intros [= _ <- _]; [|auto].
-    right. right. right. apply Nat.eqb_eq in E0. split; [reflexivity|]. split; [destruct (s_bytes st); [reflexivity|discriminate]|].
+    right. right. right. right. apply Nat.eqb_eq in E0. split; [reflexivity|]. split; [destruct (s_bytes st); [reflexivity|discriminate]|].
     split; [reflexivity|]. split; [apply hash_ok_eq; exact Eh|lia].
 Qed.
 
-Lemma close_err r : hcr_close H r = ENil \/ hcr_close H r = EUEOF \/ hcr_close H r = EBadChecksum.
-Proof. unfold hcr_close. destruct (s_term (h_st r)); [destruct (hash_ok H (h_check r) (s_bytes (h_st r)))|]; auto. Qed.
+Lemma close_err r : hcr_close H r = ENil \/ hcr_close H r = EUEOF \/ hcr_close H r = EBadChecksum \/ hcr_close H r = EBadSize.
+Proof. unfold hcr_close. destruct (s_term (h_st r)); [destruct (hash_ok H (h_check r) (s_bytes (h_st r)))| |]; auto. Qed.
 
 (* a failed fetch leaves an error that is neither nil nor (for a consistent block) io.EOF *)
 Lemma fetch_err_class oracle retries bl e :
@@ -120,8 +116,9 @@ Proof.
   - pose proof (get_or_head_ok oracle _ _ _ _ _ _ _ _ G) as F.
     unfold fetch_entry in E. fold (fresh st (loc_hash (b_loc bl))) in E.
     destruct (hcr_read_full H (fresh st (loc_hash (b_loc bl))) size) as [[b e1] r'] eqn:Er.
-    destruct (read_full_err _ _ _ _ _ _ Er) as [X|[X|[X|(X & Eb & T & Hh & Hpos)]]]; subst e1.
-    + destruct (close_err r') as [X|[X|X]]; rewrite X in E; [discriminate|injection E as <-; split; discriminate|injection E as <-; split; discriminate].
+    destruct (read_full_err _ _ _ _ _ _ Er) as [X|[X|[X|[X|(X & Eb & T & Hh & Hpos)]]]]; subst e1.
+    + destruct (close_err r') as [X|[X|[X|X]]]; rewrite X in E; [discriminate|injection E as <-; split; discriminate|injection E as <-; split; discriminate|injection E as <-; split; discriminate].
+    + injection E as <-. split; discriminate.
     + injection E as <-. split; discriminate.
     + injection E as <-. split; discriminate.
     + exfalso. destruct (size_is_len oracle bl x rd size st C F T Hh) as [Ec Es]. rewrite <- Ec, Eb in Es. cbn in Es. lia.
@@ -224,8 +221,9 @@ Definition op_wf (o : op) : Prop :=
   | OFile segs _ => Forall seg_ok segs
   end.
 
-Lemma read_all_err r : snd (hcr_read_all H r) = EEOF \/ snd (hcr_read_all H r) = EBadChecksum \/ snd (hcr_read_all H r) = EUEOF.
-Proof. unfold hcr_read_all. cbn [snd]. destruct (s_term (h_st r)); [destruct (hash_ok H (h_check r) (s_bytes (h_st r)))|]; auto. Qed.
+Lemma read_all_err r : snd (hcr_read_all H r) = EEOF \/ snd (hcr_read_all H r) = EBadChecksum \/ snd (hcr_read_all H r) = EUEOF \/
+  snd (hcr_read_all H r) = EBadSize.
+Proof. unfold hcr_read_all. cbn [snd]. destruct (s_term (h_st r)); [destruct (hash_ok H (h_check r) (s_bytes (h_st r)))| |]; auto. Qed.
 
 Lemma use_reader_ok st b bl m :
   block_at b bl ->
@@ -243,11 +241,12 @@ Proof.
     unfold use_reader. fold H. fold (fresh s (loc_hash (b_loc bl))). destruct m as [|k| |].
     + destruct (hcr_read_all H (fresh s (loc_hash (b_loc bl)))) as [bb e] eqn:Er.
       cbn [op_ok]. rewrite Eb. apply orb_true_iff. right. rewrite Hsize. cbn [andb].
-      destruct (read_all_err (fresh s (loc_hash (b_loc bl)))) as [X|[X|X]]; rewrite Er in X; cbn [snd] in X; subst e.
+      destruct (read_all_err (fresh s (loc_hash (b_loc bl)))) as [X|[X|[X|X]]]; rewrite Er in X; cbn [snd] in X; subst e.
       * destruct (read_all_sound H _ _ _ Er) as (Hbb & T & Hh).
         assert (Ebb : bb = b_content bl) by (apply (cs_nocoll _ C); rewrite Hh; symmetry; apply (cs_hash _ C)).
         rewrite Ebb, String.eqb_refl. cbn [andb].
         unfold hcr_close, fresh. cbn [h_st h_check]. rewrite T. rewrite <- Hbb, Ebb, Hk. reflexivity.
+      * reflexivity.
       * reflexivity.
       * reflexivity.
     + destruct (hcr_read_full H (fresh s (loc_hash (b_loc bl))) k) as [[bb e] r'] eqn:Er.
